@@ -368,6 +368,10 @@ pub fn jobs_for(prop: &str, thorough: bool) -> Vec<Job> {
             c4.nrep = 4;
             c4.nsteps = 40;
             js.push(job("LI", "4 replicas, 40 steps", c4, sw(6, Delivery::Causal, 0), 1500));
+            let mut t = template_job("LI", mon::SPEC | mon::CONV | mon::ORDER | mon::EQ, Delivery::Causal, false, 1500);
+            t.cfg.dups = true;
+            t.label = "conflict template: 4 actors editing around two positions (sibling and nested identifiers), every causal order";
+            js.push(t);
         }
         "C13" => {
             let mut c = Cfg::base(3, 30, Delivery::Causal, mon::SEQ);
